@@ -888,3 +888,31 @@ func VerifRunCommand(
 	}
 	return res
 }
+
+// VerifEscapeNl exposes escapeNl (how printCfg writes clause texts
+// that span lines).
+func VerifEscapeNl(s string) string { return escapeNl(s) }
+
+// VerifReadLogicalLines reads data with the real reader and returns
+// the logical lines it hands to the clause parsers, each with the
+// number of the physical line it starts on.
+func VerifReadLogicalLines(data string) (lines []string, starts []int, errS string) {
+	ctx := context.Background()
+	cfg := newConfig()
+	rd, _ := newReaderFromString("<verif>", data)
+	defer rd.close()
+	for {
+		line, p, stop, skip, err := rd.readLine(ctx, cfg)
+		if err != nil {
+			return lines, starts, err.Error()
+		}
+		if stop {
+			return lines, starts, ""
+		}
+		if skip {
+			continue
+		}
+		lines = append(lines, line)
+		starts = append(starts, p.lineno)
+	}
+}
